@@ -23,7 +23,7 @@ func ghostTimerPrefix(kg uint16) []byte { return []byte{byte(kg >> 8), byte(kg),
 //   ¬allDataInCache ⇒ every uncached db timer is greater than every cached one.
 
 //@ define pqTimer(pq, k) := has(pq.db.live, k) && hasprefix(k, ghostTimerPrefix(uint16(pq.keyGroup)))
-//@ define pqShape(pq) := pq.cache != nil && pq.cache.tree != nil && pq.db != nil && pq.cache.tree.bytes >= 0 && pq.cache.byteSize == uint64(pq.cache.tree.bytes)
+//@ define pqShape(pq) := pq.cache != nil && pq.cache.tree != nil && pq.db != nil && pq.db.mtables != nil && pq.cache.tree.bytes >= 0 && pq.cache.byteSize == uint64(pq.cache.tree.bytes)
 //@ define pqInv(pq) := pqShape(pq) &&
 //@        forall(func(k string) bool { return has(pq.cache.tree.set, k) ==> pqTimer(pq, k) }) &&
 //@        (pq.allDataInCache ==> forall(func(k string) bool { return pqTimer(pq, k) ==> has(pq.cache.tree.set, k) })) &&
@@ -267,7 +267,7 @@ func ghostEntryKey(s *KeyedStateStore, key []byte) []byte { _, d := s.decodeKey(
 //@        forall(0, len(ret)-1, func(gg_ int) bool { return ret[gg_].Namespace != ret[gg_+1].Namespace })
 //@ func KeyedStateStore.GetState
 //@   property C03
-//@   requires s.db != nil && s.keySpace != nil && partitioning.ghostValidKeySpace(s.keySpace) && len(key) < 4294967296
+//@   requires s.db != nil && s.db.mtables != nil && s.keySpace != nil && partitioning.ghostValidKeySpace(s.keySpace) && len(key) < 4294967296
 //@   requires forall(func(c []byte) bool { return has(s.db.live, string(c)) && hasprefix(c, s.encodeSubjectKey(key)) ==> wfKey(c) })
 //@   ensures result1 == nil ==> groupsOK(result0)
 //@   ensures@A result1 == nil ==> forall(func(k string) bool { return has(s.db.live, k) && hasprefix(k, s.encodeSubjectKey(key)) ==>
